@@ -50,7 +50,7 @@ from vlib import env
 
 THEOREMS = [
     "bound_commit_master_first", "bound_commit_refused_noop", "local_commit_only_local", "master_commit_only_master",
-    "update_equalises", "update_empty_master_partial_witness", "pull_equalises_or_refuses", "refused_noop",
+    "update_equalises_partial", "update_empty_master_witness", "pull_equalises_or_refuses", "refused_noop",
     "run_master_first", "unbound_commit_only_local",
 ]
 RULE = ("case = operation sequence over (M, H, L), compared after every step; distinct by op list; non-trivial = at least "
@@ -309,7 +309,7 @@ def absorb(ctx, res):
 
 
 def run(ctx):
-    nseq = ctx.pick(36, 260)
+    nseq = ctx.pick(60, 300)
     maxlen = ctx.pick(15, 25)
     seqs = [list(f) for f in FIXED]
     cdir = os.path.join(env.VERIF, "corpus", "C23")
